@@ -20,6 +20,8 @@ def step (w : W) (ws : List String) : W × String :=
   | ["l1leaf", i, g] => match i.toNat?, g.toNat? with
     | some i, some g => ({ w with leaves := w.leaves ++ [(i, g)] }, "ok")
     | _, _ => (w, "bad-op")
+  -- one of the next header answers disagrees with the logs once: the range is fetched again (C05_retry_transparent)
+  | ["hdrfault", _] => (w, "ok")
   | ["inject", g] => match g.toNat? with
     | some g => ({ w with injected := g :: w.injected }, "ok")
     | none => (w, "bad-op")
@@ -30,6 +32,14 @@ def step (w : W) (ws : List String) : W × String :=
     | some b, some g => ({ w with chain := w.chain.filter (fun x => x.1 != b) ++ [(b, .remove g)] }, "ok")
     | _, _ => (w, "bad-op")
   | ["poll", t] => match t.toNat? with
+    | some t =>
+      if w.fep then ({ w with fst := pollFEP w.leaves (fun g => w.injected.contains g) w.fst t }, "ok")
+      else ({ w with st := pollPP (chainFn w) w.st t }, "ok")
+    | none => (w, "bad-op")
+  -- `poll! t k`: the k-th storage statement of this poll's block processing fails once. `ProcessBlock` runs in one
+  -- transaction and the driver retries a failed block, so the outcome is that of `poll t` (atomicity is SQLite's,
+  -- the retry is the driver's; both are exercised by the correspondence run, neither is a theorem)
+  | ["poll!", t, _] => match t.toNat? with
     | some t =>
       if w.fep then ({ w with fst := pollFEP w.leaves (fun g => w.injected.contains g) w.fst t }, "ok")
       else ({ w with st := pollPP (chainFn w) w.st t }, "ok")
